@@ -277,6 +277,12 @@ pub fn c06(rng: &mut Rng, thorough: bool, idx: u64) -> Spec {
     let nclients = rng.range(1, 3) as u32;
     let mut plan = serde_json::Map::new();
     let mut clients = Vec::new();
+    // every fifth run: the statement cache is on and keyed statements are also prepared under a name
+    let stmt_cache = idx % 5 == 2;
+    if stmt_cache {
+        cfg.pools[0].cache_size = 8;
+    }
+    let mut named = 0u32;
     for id in 1..=nclients {
         let mut p = Prog::new(id);
         let n = rng.range(4, if thorough { 24 } else { 12 });
@@ -397,12 +403,43 @@ pub fn c06(rng: &mut Rng, thorough: bool, idx: u64) -> Spec {
                     };
                     let path = format!("bind_{}{}{}{}", if binary { format!("binary{}", width) } else { "text".into() }, if two { if key_first { "_key_first_of_two" } else { "_key_second_of_two" } } else { "" }, if two { ["_other_word", "_other_number_text", "_other_number_binary"][other_kind as usize] } else { "" }, if k < 0 { "_negative" } else { "" });
                     plan.insert(t.clone(), serde_json::json!({"path": path, "key": k}));
-                    p.send(vec![
-                        FrontMsg::P { name: String::new(), sql, types: vec![] },
-                        FrontMsg::B { portal: String::new(), stmt: String::new(), fmt, params, rfmt: vec![], binary_hex: true },
-                        FrontMsg::E { portal: String::new(), max: 0 },
-                        FrontMsg::S,
-                    ]);
+                    if stmt_cache && dead_shard.is_none() && rng.chance(0.5) {
+                        // (not with an unreachable shard: a Parse refused for want of a server is
+                        // forgotten, and the Bind that follows would be the program's own error)
+                        // prepared under a name now (answered from the pooler's cache), executed by
+                        // a later Bind, after another keyed statement with another parameter
+                        // layout; a keyed statement follows at once, so that nothing depends on
+                        // when exactly the selection changed
+                        named += 1;
+                        let name = format!("k{}_{}", id, named);
+                        if let Some(e) = plan.get_mut(&t) {
+                            e["named_later"] = serde_json::json!(true);
+                        }
+                        p.send(vec![FrontMsg::P { name: name.clone(), sql, types: vec![] }, FrontMsg::S]);
+                        let keyed = |p: &mut Prog, rng: &mut Rng, plan: &mut serde_json::Map<String, serde_json::Value>| {
+                            p.new_txn();
+                            let t0 = p.tag();
+                            let k0 = key(rng);
+                            plan.insert(t0.clone(), serde_json::json!({"path": if k0 < 0 { "bind_text_key_second_of_two_other_word_negative" } else { "bind_text_key_second_of_two_other_word" }, "key": k0}));
+                            p.send(vec![
+                                FrontMsg::P { name: String::new(), sql: format!("SELECT '{}' FROM data WHERE v = $1 AND id = $2", t0), types: vec![] },
+                                FrontMsg::B { portal: String::new(), stmt: String::new(), fmt: vec![0, 0], params: vec![Some(proto::hex(b"abc")), Some(proto::hex(k0.to_string().as_bytes()))], rfmt: vec![], binary_hex: true },
+                                FrontMsg::E { portal: String::new(), max: 0 },
+                                FrontMsg::S,
+                            ]);
+                        };
+                        keyed(&mut p, rng, &mut plan);
+                        p.new_txn();
+                        p.send(vec![FrontMsg::B { portal: String::new(), stmt: name, fmt, params, rfmt: vec![], binary_hex: true }, FrontMsg::E { portal: String::new(), max: 0 }, FrontMsg::S]);
+                        keyed(&mut p, rng, &mut plan);
+                    } else {
+                        p.send(vec![
+                            FrontMsg::P { name: String::new(), sql, types: vec![] },
+                            FrontMsg::B { portal: String::new(), stmt: String::new(), fmt, params, rfmt: vec![], binary_hex: true },
+                            FrontMsg::E { portal: String::new(), max: 0 },
+                            FrontMsg::S,
+                        ]);
+                    }
                 }
             }
             if rng.chance(0.2) {
